@@ -3,18 +3,22 @@ PROPERTY = 'C16'
 LEVEL = 'exploration'
 DEDUCTIVE = ['contracts.c16_frb']
 BUDGET_S = {'quick': 120.0, 'thorough': 300.0}
-MIN_OBLIGATIONS = {'quick': 40, 'thorough': 40}
+MIN_OBLIGATIONS = {'quick': 400, 'thorough': 400}
 BOUNDED_FLOOR = {'quick': 1500, 'thorough': 8000}
 CONFIG_NOTE = {'quick': "AnyScalar.__eq__, bounds_for_cache for 1-3 axes (scalar-ness and contribution symbolic), translate_pixel per case (pixel attribute, stored/derived, world, unknown, links with 0-3 inputs, nested link) "
-                        "with the real function re-entered for the recursion", 'thorough': "same, bounds_for_cache up to 4 axes"}
+                        "with the real function re-entered for the recursion; compute_fixed_resolution_buffer walked from its first statement for 24 cache situations (no cache id / array-cache hit / array cache for another "
+                        "request / per-axis entries matching, stale or absent per source axis / per-axis cache built for another dataset pair with and without an array-cache entry) x scalar and ranged bounds x values and masks",
+               'thorough': "same, bounds_for_cache up to 4 axes"}
 TRUSTED_BASE = [
     "np.isscalar as a predicate on bounds; Python list equality compares element-wise with the left operand's __eq__ (the wildcard is always on the cached, left side)",
     "contracts of the callees of translate_pixel: data._get_external_link, component._calculate, dependent_axes (C15), link._using, broadcast_arrays_minimal, np.broadcast_to are opaque operations recorded by the harness",
+    "in the cache-protocol contract every numpy step of compute_fixed_resolution_buffer (linspace, meshgrid, round, unbroadcast, comparisons, |, masked assignment, broadcast_to, get_data / get_mask, astype, indexing) is an "
+    "opaque operation that records its operands (provenance terms); translate_pixel and bounds_for_cache are used through their own contracts / real text; np.any is an arbitrary boolean",
     "the VC generator (pyvc) and z3 5.1.0",
 ]
 ASSUMPTIONS = [
-    "compute_fixed_resolution_buffer itself (meshgrid, rounding, bounds check, fancy indexing, the ARRAY_CACHE / PIXEL_CACHE bookkeeping between numpy statements) is out of reach of the VC generator: the nearest-pixel "
-    "definition and the cache-transparency over request histories are bounded stand-ins, never counted as proved",
+    "what the numpy steps of compute_fixed_resolution_buffer compute (rounding to the nearest pixel, the bounds check, fancy indexing) is out of reach of the VC generator: the nearest-pixel definition, and that a key match "
+    "implies an equal result (a scalar bound on a non-contributing axis does not influence the buffer), are bounded stand-ins, never counted as proved",
     "request histories do not change data values, selections objects or links between requests (the property is stated for unchanged data); samples within 1e-6 of a half pixel are not compared",
 ]
 
@@ -26,11 +30,15 @@ def bounded(tier, seed, R):
 
 MANIFEST_ENTRY = {
     "level": "exploration",
-    "technique": "contract-based deductive verification of the cache-key helpers and of translate_pixel (pyvc + z3, real function re-entered for the recursion); bounded differential sweep of compute_fixed_resolution_buffer "
+    "technique": "contract-based deductive verification of the cache protocol of compute_fixed_resolution_buffer (real function, numpy steps as provenance-recording opaque operations), of the cache-key helpers and of "
+                 "translate_pixel (pyvc + z3, real function re-entered for the recursion); bounded differential sweep of compute_fixed_resolution_buffer "
                  "against nearest-pixel resampling through known pixel maps, and of cached against uncached requests over random viewer-like request histories",
-    "text": "Proved: the wildcard equals exactly scalars; bounds_for_cache replaces bound i by the wildcard iff it is a scalar and axis i did not contribute, and keeps every other bound; translate_pixel returns the coordinate "
+    "text": "Proved: without a cache id neither cache is read or written; an array-cache hit returns the stored array and recomputes nothing; a per-axis cache built for another dataset pair is dropped before use; each source "
+            "axis is taken from its per-axis entry exactly when the stored bounds match and is otherwise translated and stored with its own out-of-range mask, reported axes and bounds whose wildcards stand only for scalar bounds "
+            "on non-contributing axes; the values / membership are fetched once at these coordinates; afterwards the array cache holds this result under (dataset, bounds, frame, attribute uuid or selection, broadcast). "
+            "The wildcard equals exactly scalars; bounds_for_cache replaces bound i by the wildcard iff it is a scalar and axis i did not contribute, and keeps every other bound; translate_pixel returns the coordinate "
             "array and axis of a pixel attribute, follows links recursively applying the link function to the minimally broadcast inputs, reports the sorted union of contributing axes, and raises for attributes it cannot "
             "derive. Explored: 9 linked sources (identity, offset+scale, permuted, lower-dimensional, coupled, world-linked, unlinked, half-linked) x bounds (scalar / ranged, inside / partly / wholly outside, reversed) x "
             "values and selections against the definition; request histories sharing a cache id against uncached requests; planes shown by image layer states.",
-    "note": "Level is exploration: the buffer computation and the cache bookkeeping are numpy-interleaved code that is only swept.",
+    "note": "Level is exploration: the nearest-pixel arithmetic is numpy code that is only swept, and 'equal keys imply equal buffers' rests on it.",
 }
